@@ -14,6 +14,7 @@
 import FontcProofs.NamesMain
 import FontcProofs.NamesPerm
 import FontcProofs.NamesMisc
+import FontcProofs.NamesFea
 
 namespace Fontc.C18
 open Fontc.Names
@@ -161,6 +162,108 @@ theorem fea_ids_disjoint_after_shift (T : Table) (id : Nat) :
     · exact h
     · split at h <;> split at h <;> omega
 
+/-! ## 7. names supplied through feature code (fea-rs `NameBuilder`, fontbe `merge_name_records`) -/
+
+/-- every anonymous name block (featureNames, cvParameters entries, sizemenuname, STAT names) has a non-empty name -/
+def GroupsNonempty (groups : List (List FeaSpec)) : Prop := ∀ g ∈ groups, ∃ e ∈ g, e.str ≠ []
+
+theorem nonEmptySpecs_ne {groups : List (List FeaSpec)} (h : GroupsNonempty groups) :
+    ∀ g ∈ groups, nonEmptySpecs g ≠ [] := by
+  intro g hg hnil
+  obtain ⟨e, he, hs⟩ := h g hg
+  have : e ∈ nonEmptySpecs g := by
+    simp only [nonEmptySpecs, List.mem_filter]
+    exact ⟨he, by cases h' : e.str <;> simp_all⟩
+  rw [hnil] at this; simp at this
+
+/-- Anonymous ids never collide with explicit `nameid N` records — for EVERY order of the explicit records, ascending or
+    not — nor with each other: there is one id per group, each is ≥ 256 and larger than every explicit id, and they are
+    strictly increasing in build order. -/
+theorem fea_anon_ids_fresh (expl : List (Nat × FeaSpec)) (groups : List (List FeaSpec)) (hne : GroupsNonempty groups) :
+    (feaCompile expl groups).2.length = groups.length ∧
+    (∀ id ∈ (feaCompile expl groups).2, 256 ≤ id ∧ ∀ e ∈ expl, e.1 < id) ∧
+    (feaCompile expl groups).2.Pairwise (· < ·) := by
+  obtain ⟨h255, hle, _⟩ := feaExplicit_last expl
+  refine ⟨addGroups_length _ _, ?_, addGroups_ids_increasing _ _ (nonEmptySpecs_ne hne)⟩
+  intro id hid
+  have := addGroups_ids_gt groups (feaExplicit expl) id hid
+  refine ⟨by omega, fun e he => ?_⟩
+  have := hle e he; omega
+
+/-- … and the ids do not depend on the order in which the explicit records are written. -/
+theorem fea_anon_ids_order_independent (expl₁ expl₂ : List (Nat × FeaSpec)) (groups : List (List FeaSpec))
+    (h : expl₁.Perm expl₂) : (feaCompile expl₁ groups).2 = (feaCompile expl₂ groups).2 :=
+  addGroups_ids_congr groups _ _ (feaExplicit_last_perm h)
+
+/-- Every id handed to STAT / featureNames / cvParameters / sizemenuname carries exactly the source's strings: under the
+    id of a group there are the group's non-empty entries and nothing else. -/
+theorem fea_referenced_ids_exact (expl : List (Nat × FeaSpec)) (groups : List (List FeaSpec)) (hne : GroupsNonempty groups)
+    (g : List FeaSpec) (id : Nat) (hz : (g, id) ∈ groups.zip (feaCompile expl groups).2) (sp : FeaSpec) :
+    (id, sp) ∈ (feaCompile expl groups).1.records ↔ (sp ∈ g ∧ sp.str ≠ []) := by
+  have hold : ∀ r ∈ (feaExplicit expl).records, r.1 ≤ (feaExplicit expl).last := by
+    intro r hr; rw [feaExplicit_records] at hr; exact (feaExplicit_last expl).2.1 r hr
+  rw [show (feaCompile expl groups).1 = ((feaExplicit expl).addGroups groups).1 from rfl,
+    addGroups_exact groups (feaExplicit expl) hold (nonEmptySpecs_ne hne) g id hz sp]
+  simp only [nonEmptySpecs, List.mem_filter]
+  constructor
+  · rintro ⟨h1, h2⟩; exact ⟨h1, by cases h' : sp.str <;> simp_all⟩
+  · rintro ⟨h1, h2⟩; exact ⟨h1, by cases h' : sp.str <;> simp_all⟩
+
+/-- No explicit record is lost by the anonymous allocation. -/
+theorem fea_explicit_records_kept (expl : List (Nat × FeaSpec)) (groups : List (List FeaSpec)) :
+    ∀ e ∈ expl, e ∈ (feaCompile expl groups).1.records := by
+  intro e he
+  rw [show (feaCompile expl groups).1 = ((feaExplicit expl).addGroups groups).1 from rfl, addGroups_records,
+    feaExplicit_records]
+  exact List.mem_append_left _ he
+
+/-- The merge with the compiler's own names loses nothing that is referenced: every FEA record is in the merged table;
+    every record of the compiler's own with a font-specific id (all of fvar's and STAT's references except a reused
+    id 2 / 17) survives; a reserved record survives unless the feature code says something for exactly that key. -/
+theorem fea_merge_loses_nothing (own : Table) (b : FeaBuilder) (ho : (akeys own).Nodup)
+    (hf : (akeys (feaRecordsShifted own b)).Nodup) :
+    (∀ p ∈ feaRecordsShifted own b, alookup p.1 (mergeNames own (feaRecordsShifted own b)) = some p.2) ∧
+    (∀ k v, alookup k own = some v → 256 ≤ k.id → alookup k (mergeNames own (feaRecordsShifted own b)) = some v) ∧
+    (∀ k v, alookup k own = some v → alookup k (feaRecordsShifted own b) = none →
+      alookup k (mergeNames own (feaRecordsShifted own b)) = some v) := by
+  refine ⟨?_, ?_, ?_⟩
+  · intro p hp
+    rw [alookup_mergeNames ho hf, alookup_of_mem_nodup hf hp]; rfl
+  · intro k v hk hid
+    have hnone : alookup k (feaRecordsShifted own b) = none := by
+      rw [alookup_eq_none_iff]
+      intro v' hv'
+      simp only [feaRecordsShifted, List.mem_map] at hv'
+      obtain ⟨r, _, hr⟩ := hv'
+      have hkid : k.id = feaShift own r.1 := by
+        have := congrArg (fun q => q.1.id) hr; simpa using this.symm
+      have hmax := le_maxId (mem_of_alookup hk)
+      simp only at hmax
+      unfold feaShift at hkid
+      split at hkid
+      · omega
+      · split at hkid <;> omega
+    rw [alookup_mergeNames ho hf, hnone, hk]; rfl
+  · intro k v hk hnone
+    rw [alookup_mergeNames ho hf, hnone, hk]; rfl
+
+/-- non-vacuity: explicit records in descending order with two languages, three groups -/
+example :
+    let en (s : Str) : FeaSpec := ⟨3, 1, 0x409, s⟩
+    let de (s : Str) : FeaSpec := ⟨3, 1, 0x407, s⟩
+    let expl := [(258, en [65]), (256, en [66]), (256, de [67]), (9, en [68])]
+    let groups := [[en [69], de [70]], [en [71]], [en [], en [72]]]
+    GroupsNonempty groups ∧ (feaCompile expl groups).2 = [259, 260, 261] ∧
+    (feaCompile expl.reverse groups).2 = [259, 260, 261] ∧
+    ((feaCompile expl groups).1.records.filter fun r => r.1 == 261) = [(261, en [72])] := by
+  refine ⟨?_, by decide, by decide, by decide⟩
+  intro g hg
+  simp only [List.mem_cons, List.mem_nil_iff, or_false] at hg
+  rcases hg with rfl | rfl | rfl
+  · exact ⟨_, List.mem_cons_self, by decide⟩
+  · exact ⟨_, List.mem_cons_self, by decide⟩
+  · exact ⟨_, List.mem_cons_of_mem _ List.mem_cons_self, by decide⟩
+
 /-! ## History: the three statements that were false before the fixes (old model `allocOld` / `reusableNameIdOld`) -/
 
 /-- F2 witness (directed case 0 of stream `c18`; exactly the `names` the real `NameBuilder` produces for
@@ -268,6 +371,11 @@ example :
 #print axioms fallback_chain_spec
 #print axioms front_end_ids_unique
 #print axioms fea_ids_disjoint_after_shift
+#print axioms fea_anon_ids_fresh
+#print axioms fea_anon_ids_order_independent
+#print axioms fea_referenced_ids_exact
+#print axioms fea_explicit_records_kept
+#print axioms fea_merge_loses_nothing
 #print axioms f2_two_results
 #print axioms allocOld_perm_invariant_counterexample
 #print axioms f2_one_result
